@@ -10,7 +10,7 @@ import threading
 
 ROOT = os.path.dirname(os.path.dirname(os.path.abspath(__file__)))
 REPO = os.environ.get("VERIF_REPO", "/repo")
-BUILD = os.path.join(ROOT, "build")
+BUILD = os.path.join(os.environ.get("VERIF_OUT", ROOT), "build")
 GOTO_FLAGS = ["-include", f"{REPO}/config.h", f"-I{ROOT}/env/include", f"-I{REPO}", f"-I{REPO}/mtbl", f"-I{ROOT}", "-DVG_CBMC"]
 MEM_LIMIT = 14 * 1024 ** 3
 NCPU = os.cpu_count() or 4
